@@ -541,41 +541,192 @@ Proof.
   - cbn [existsb]. rewrite Hctl, I2. reflexivity.
 Qed.
 
-(* URL.String then url.Parse gives back a plain path and a well-formed query unchanged *)
-Lemma parse_request_uri_plain p q :
-  plain_path p -> good_query q ->
-  parse_request_uri (request_uri p q) = Some (p, p, q).
+(* ---- escaping: every byte string survives URL.String + url.Parse ---- *)
+Definition safe (c : N) : bool := plain_byte c || (c =? 37) || (c =? 42).
+
+Lemma safe_facts c : safe c = true -> c <> 35 /\ c <> 63 /\ is_ctl c = false /\ valid_enc_byte c = true.
 Proof.
-  intros [Hp [Hcol Hds]] Hq.
+  unfold safe. intros H. apply orb_true_iff in H as [H|H]; [apply orb_true_iff in H as [H|H]|].
+  - destruct (plain_range c H) as [Hr [H37 H63]]. repeat split; try lia.
+    + unfold is_ctl. apply orb_false_iff. split; [apply N.ltb_ge; lia | apply N.eqb_neq; lia].
+    + unfold valid_enc_byte. rewrite H. repeat rewrite orb_true_r. reflexivity.
+  - apply N.eqb_eq in H. subst c. repeat split; try discriminate; reflexivity.
+  - apply N.eqb_eq in H. subst c. repeat split; try discriminate; reflexivity.
+Qed.
+
+Lemma hex_sweep :
+  forallb (fun n => let v := N.of_nat n in
+     match hex_val (hex_digit v) with Some w => w =? v | None => false end
+     && plain_byte (hex_digit v) && negb (hex_digit v =? 47) && negb (hex_digit v =? 58) && negb (hex_digit v =? 37)) (seq 0 16) = true.
+Proof. vm_compute. reflexivity. Qed.
+
+Lemma hex_facts v : v < 16 ->
+  hex_val (hex_digit v) = Some v /\ plain_byte (hex_digit v) = true /\ hex_digit v <> 47 /\ hex_digit v <> 58 /\ hex_digit v <> 37.
+Proof.
+  intros Hv. pose proof hex_sweep as S. rewrite forallb_forall in S. specialize (S (N.to_nat v)).
+  cbv zeta in S. rewrite N2Nat.id in S. assert (Hin : In (N.to_nat v) (seq 0 16)) by (apply in_seq; lia).
+  specialize (S Hin). repeat (apply andb_true_iff in S as [S ?]).
+  destruct (hex_val (hex_digit v)) as [w|]; [|discriminate]. apply N.eqb_eq in S. subst w.
+  repeat match goal with X : negb (_ =? _) = true |- _ => apply negb_true_iff in X; apply N.eqb_neq in X end.
+  repeat split; assumption.
+Qed.
+
+Lemma byte_nibbles c : c < 256 -> c / 16 < 16 /\ c mod 16 < 16 /\ 16 * (c / 16) + c mod 16 = c.
+Proof.
+  intros H. pose proof (N.div_mod c 16 ltac:(lia)). pose proof (N.mod_lt c 16 ltac:(lia)).
+  assert (c / 16 < 16) by (apply N.div_lt_upper_bound; lia). lia.
+Qed.
+
+Lemma escape_cons c t : escape (c :: t) = esc_byte c ++ escape t.
+Proof. reflexivity. Qed.
+
+Lemma unescape_escape p : bytes_ok p -> unescape (escape p) = Some p.
+Proof.
+  induction p as [|c t IH]; intros H; [reflexivity|]. inversion H as [|? ? Hc Ht]; subst.
+  rewrite escape_cons. unfold esc_byte. destruct (plain_byte c) eqn:Hp.
+  - cbn [app unescape]. destruct (plain_range c Hp) as [_ [H37 _]].
+    assert (E : (c =? c_pct) = false) by (apply N.eqb_neq; exact H37). rewrite E, (IH Ht). reflexivity.
+  - destruct (byte_nibbles c Hc) as [Hh [Hl Hs]].
+    destruct (hex_facts _ Hh) as [V1 _]. destruct (hex_facts _ Hl) as [V2 _].
+    cbn [app unescape]. rewrite N.eqb_refl, V1, V2, (IH Ht), Hs. reflexivity.
+Qed.
+
+Lemma safe_escape p : bytes_ok p -> forallb safe (escape p) = true.
+Proof.
+  induction p as [|c t IH]; intros H; [reflexivity|]. inversion H as [|? ? Hc Ht]; subst.
+  rewrite escape_cons, forallb_app, (IH Ht), andb_true_r. unfold esc_byte. destruct (plain_byte c) eqn:Hp.
+  - cbn [forallb]. unfold safe. rewrite Hp. reflexivity.
+  - destruct (byte_nibbles c Hc) as [Hh [Hl _]].
+    destruct (hex_facts _ Hh) as [_ [P1 _]]. destruct (hex_facts _ Hl) as [_ [P2 _]].
+    cbn [forallb]. unfold safe. rewrite P1, P2. reflexivity.
+Qed.
+
+(* the escaped form of a byte contains '/' (resp. ':') exactly when the byte is '/' (resp. ':') *)
+Lemma esc_byte_sep c x : c < 256 -> x = 47 \/ x = 58 -> existsb (fun b => b =? x) (esc_byte c) = (c =? x).
+Proof.
+  intros Hc Hx. unfold esc_byte. destruct (plain_byte c) eqn:Hp.
+  - cbn [existsb]. rewrite orb_false_r. reflexivity.
+  - destruct (byte_nibbles c Hc) as [Hh [Hl _]].
+    destruct (hex_facts _ Hh) as [_ [_ [A1 [A2 _]]]]. destruct (hex_facts _ Hl) as [_ [_ [B1 [B2 _]]]].
+    assert (Hcx : (c =? x) = false).
+    { apply N.eqb_neq. intros ->. destruct Hx as [->| ->]; vm_compute in Hp; discriminate. }
+    rewrite Hcx. cbn [existsb].
+    destruct Hx as [->| ->]; repeat (apply orb_false_iff; split); try reflexivity; apply N.eqb_neq; assumption.
+Qed.
+
+Lemma esc_slash t : escape (47 :: t) = 47 :: escape t.
+Proof. reflexivity. Qed.
+
+Lemma esc_nonslash_head c t : c < 256 -> c <> 47 -> exists h r, escape (c :: t) = h :: r /\ h <> 47.
+Proof.
+  intros Hc Hn. rewrite escape_cons. unfold esc_byte. destruct (plain_byte c).
+  - exists c, (escape t). split; [reflexivity|exact Hn].
+  - eexists; eexists; split; [reflexivity|discriminate].
+Qed.
+
+Lemma is_prefix_slashes k p : bytes_ok p -> is_prefix (repeat 47 k) (escape p) = is_prefix (repeat 47 k) p.
+Proof.
+  revert p. induction k as [|k IH]; intros p H; [reflexivity|].
+  destruct p as [|c t]; [reflexivity|]. inversion H as [|? ? Hc Ht]; subst.
+  destruct (N.eq_dec c 47) as [->|Hn].
+  - rewrite esc_slash. cbn [repeat is_prefix]. rewrite N.eqb_refl. cbn [andb]. apply IH. exact Ht.
+  - destruct (esc_nonslash_head c t Hc Hn) as [h [r [E Hh]]]. rewrite E. cbn [repeat is_prefix].
+    assert (E1 : (47 =? h) = false) by (apply N.eqb_neq; congruence).
+    assert (E2 : (47 =? c) = false) by (apply N.eqb_neq; congruence).
+    rewrite E1, E2. reflexivity.
+Qed.
+
+Lemma cut_byte_app_noslash a b : existsb (fun x => x =? 47) a = false ->
+  fst (cut_byte 47 (a ++ b)) = a ++ fst (cut_byte 47 b).
+Proof.
+  induction a as [|x a IH]; intros H; [reflexivity|]. cbn [existsb] in H. apply orb_false_iff in H as [Hx Ha].
+  cbn [app cut_byte]. rewrite Hx. rewrite <- (IH Ha). destruct (cut_byte 47 (a ++ b)). reflexivity.
+Qed.
+
+Lemma first_seg_colon_escape p : bytes_ok p -> first_seg_colon (escape p) = first_seg_colon p.
+Proof.
+  unfold first_seg_colon, c_slash, c_colon.
+  induction p as [|c t IH]; intros H; [reflexivity|]. inversion H as [|? ? Hc Ht]; subst.
+  destruct (N.eq_dec c 47) as [->|Hn].
+  - rewrite esc_slash. cbn [cut_byte]. rewrite N.eqb_refl. reflexivity.
+  - rewrite escape_cons.
+    assert (Hs : existsb (fun x => x =? 47) (esc_byte c) = false).
+    { rewrite (esc_byte_sep c 47 Hc (or_introl eq_refl)). apply N.eqb_neq. exact Hn. }
+    rewrite (cut_byte_app_noslash _ _ Hs), existsb_app, (IH Ht).
+    rewrite (esc_byte_sep c 58 Hc (or_intror eq_refl)).
+    cbn [cut_byte]. assert (E : (c =? 47) = false) by (apply N.eqb_neq; exact Hn). rewrite E.
+    destruct (cut_byte 47 t). cbn [fst existsb]. reflexivity.
+Qed.
+
+(* the facts Unseal's parse needs about EscapedPath() of a byte string *)
+Lemma escaped_path_facts p : bytes_ok p ->
+  let E := escaped_path p in
+  forallb safe E = true /\ unescape E = Some p /\ first_seg_colon E = first_seg_colon p
+  /\ is_prefix [47] E = is_prefix [47] p /\ dslash_start E = dslash_start p.
+Proof.
+  intros H E. subst E. unfold escaped_path. destruct (beq_bytes p s_star) eqn:Es.
+  - apply beq_bytes_spec in Es. subst p. repeat split; reflexivity.
+  - repeat split.
+    + apply safe_escape; exact H.
+    + apply unescape_escape; exact H.
+    + apply first_seg_colon_escape; exact H.
+    + exact (is_prefix_slashes 1 p H).
+    + unfold dslash_start. change [47; 47; 47] with (repeat 47 3). change [47; 47] with (repeat 47 2).
+      rewrite (is_prefix_slashes 2 p H), (is_prefix_slashes 3 p H). reflexivity.
+Qed.
+
+Lemma safe_notin x E : safe x = false -> forallb safe E = true -> ~ In x E.
+Proof. intros Hx HE Hin. rewrite forallb_forall in HE. specialize (HE x Hin). congruence. Qed.
+
+Lemma safe_noctl E : forallb safe E = true -> existsb is_ctl E = false.
+Proof.
+  induction E as [|c E IH]; intros H; [reflexivity|]. cbn [forallb] in H. apply andb_true_iff in H as [Hc HE].
+  cbn [existsb]. rewrite (IH HE), orb_false_r. destruct (safe_facts c Hc) as [_ [_ [Hctl _]]]. exact Hctl.
+Qed.
+
+Lemma safe_valid_encoded E : forallb safe E = true -> valid_encoded E = true.
+Proof.
+  unfold valid_encoded. intros H. rewrite forallb_forall in *. intros c Hc.
+  destruct (safe_facts c (H c Hc)) as [_ [_ [_ Hv]]]. exact Hv.
+Qed.
+
+(* URL.String then url.Parse gives back every sealable byte-string path and every well-formed query:
+   Path = p, EscapedPath() = escaped_path p, RawQuery = q *)
+Lemma parse_request_uri_sealed p q :
+  bytes_ok p -> sealable_path p -> good_query q ->
+  parse_request_uri (request_uri p q) = Some (p, escaped_path p, q).
+Proof.
+  intros Hb [Hcol Hds] Hq.
   destruct (good_query_parts q Hq) as [Hq35 Hqctl].
-  assert (Hep : escaped_path p = p) by (apply escaped_path_plain; exact Hp).
-  assert (Hfc : first_seg_colon p = false).
-  { destruct Hcol as [Hs|Hc]; [|exact Hc]. destruct p as [|c t]; [reflexivity|].
-    cbn [is_prefix] in Hs. apply andb_true_iff in Hs as [Hs _]. apply N.eqb_eq in Hs. subst c.
-    reflexivity. }
-  assert (N35 : ~ In 35 p) by (apply plain_notin; [reflexivity|exact Hp]).
-  assert (N63 : ~ In 63 p) by (apply plain_notin; [reflexivity|exact Hp]).
-  assert (N37 : ~ In c_pct p) by (apply plain_notin; [reflexivity|exact Hp]).
-  unfold request_uri. rewrite Hep, Hfc. cbn [app].
+  destruct (escaped_path_facts p Hb) as [Hsafe [Hun [Hfc [Hsl Hdse]]]].
+  set (E := escaped_path p) in *.
+  assert (HfcE : first_seg_colon E = false \/ is_prefix [47] E = true).
+  { destruct Hcol as [Hs|Hc]; [right; rewrite Hsl; exact Hs | left; rewrite Hfc; exact Hc]. }
+  assert (Hguard : first_seg_colon E = false).
+  { destruct HfcE as [Hc|Hs]; [exact Hc|]. destruct E as [|c t]; [reflexivity|].
+    cbn [is_prefix] in Hs. apply andb_true_iff in Hs as [Hs _]. apply N.eqb_eq in Hs. subst c. reflexivity. }
+  assert (N35 : ~ In 35 E) by (apply safe_notin; [reflexivity|exact Hsafe]).
+  assert (N63 : ~ In 63 E) by (apply safe_notin; [reflexivity|exact Hsafe]).
+  unfold request_uri. fold E. rewrite Hguard. cbn [app].
   unfold parse_request_uri.
-  assert (Hcut35 : cut_byte c_hash (p ++ match q with [] => [] | _ :: _ => c_qm :: q end)
-                   = (p ++ match q with [] => [] | _ :: _ => c_qm :: q end, None)).
+  assert (Hcut35 : cut_byte c_hash (E ++ match q with [] => [] | _ :: _ => c_qm :: q end)
+                   = (E ++ match q with [] => [] | _ :: _ => c_qm :: q end, None)).
   { apply cut_byte_none. intros Hi. apply in_app_or in Hi. destruct Hi as [Hi|Hi]; [exact (N35 Hi)|].
-    destruct q as [|c q']; [destruct Hi|]. destruct Hi as [E|Hi]; [discriminate E | exact (Hq35 Hi)]. }
+    destruct q as [|c q']; [destruct Hi|]. destruct Hi as [Ex|Hi]; [discriminate Ex | exact (Hq35 Hi)]. }
   rewrite Hcut35. cbn [fst].
-  assert (Hctl : existsb is_ctl (p ++ match q with [] => [] | _ :: _ => c_qm :: q end) = false).
-  { rewrite existsb_app, (plain_noctl p Hp). cbn [orb]. destruct q as [|c q']; [reflexivity|].
+  assert (Hctl : existsb is_ctl (E ++ match q with [] => [] | _ :: _ => c_qm :: q end) = false).
+  { rewrite existsb_app, (safe_noctl E Hsafe). cbn [orb]. destruct q as [|c q']; [reflexivity|].
     cbn [existsb]. cbn [existsb] in Hqctl. rewrite Hqctl. reflexivity. }
   rewrite Hctl.
-  assert (Hcutq : cut_byte c_qm (p ++ match q with [] => [] | _ :: _ => c_qm :: q end)
-                  = (p, match q with [] => None | _ :: _ => Some q end)).
+  assert (Hcutq : cut_byte c_qm (E ++ match q with [] => [] | _ :: _ => c_qm :: q end)
+                  = (E, match q with [] => None | _ :: _ => Some q end)).
   { destruct q as [|c q']; [rewrite app_nil_r; apply cut_byte_none; exact N63 | apply cut_byte_app; exact N63]. }
   rewrite Hcutq.
   assert (Hq' : match match q with [] => None | _ :: _ => Some q end with Some q0 => q0 | None => [] end = q)
     by (destruct q; reflexivity).
-  rewrite Hq'. rewrite Hfc, andb_false_r.
-  unfold dslash_start in Hds. unfold c_slash. rewrite Hds.
-  rewrite (unescape_nopct p N37), (plain_valid_encoded p Hp). reflexivity.
+  rewrite Hq'. rewrite Hguard, andb_false_r.
+  rewrite Hds in Hdse. unfold dslash_start in Hdse. unfold c_slash. rewrite Hdse.
+  rewrite Hun, (safe_valid_encoded E Hsafe). reflexivity.
 Qed.
 
 Section SealerProofs.
@@ -636,18 +787,16 @@ Section SealerProofs.
     rewrite Hreq in Hr. inversion Hr. eapply Hc. eassumption.
   Qed.
 
-  (* Round trip: inside the window a sealed URL unseals to the original request — for every plain path
-     and well-formed query. *)
+  (* Round trip: inside the window a sealed URL unseals to the original request — for EVERY byte-string path
+     (percent-encoding included) outside the two residual classes of sealable_path, and every well-formed query. *)
   Theorem unseal_seal key n now1 now2 now' u :
-    plain_path (u_path u) -> good_query (u_query u) -> length n = 12%nat ->
+    bytes_ok (u_path u) -> sealable_path (u_path u) -> good_query (u_query u) -> length n = 12%nat ->
     in_i64 (now1 - 10000) -> in_i64 (now2 + 900000) ->
     (now1 - 10000 <= now' <= now2 + 900000)%Z ->
     unseal key now' (seal_url key n now1 now2 u) = UOk u.
   Proof.
-    intros Hp Hq Hn Hi1 Hi2 [Hw1 Hw2].
-    destruct Hp as [Hpl Hrest].
+    intros Hb Hp Hq Hn Hi1 Hi2 [Hw1 Hw2].
     unfold Model.unseal, Model.seal_url, seal_with. cbn [s_path s_req s_nbf s_exp s_nonce fld_absent orb].
-    rewrite (escaped_path_plain _ Hpl).
     rewrite is_prefix_app. cbn [negb].
     rewrite (parse_fmt_int _ Hi1), (parse_fmt_int _ Hi2).
     assert (H1 : (now' <? now1 - 10000)%Z = false) by (apply Z.ltb_ge; lia).
@@ -658,12 +807,12 @@ Section SealerProofs.
                      (aad_of (fmt_int (now1 - 10000)) (fmt_int (now2 + 900000)))
                     = Some (request_uri (u_path u) (u_query u))) by (apply aead_ideal; reflexivity).
     rewrite Hopen.
-    rewrite (parse_request_uri_plain _ _ (conj Hpl Hrest) Hq).
+    rewrite (parse_request_uri_sealed _ _ Hb Hp Hq).
     rewrite trim_prefix_app, beq_bytes_refl. destruct u; reflexivity.
   Qed.
 
   (* Tampering: take a URL the sealer issued and keep its sealed payload.  If any of nonce / nbf / exp
-     differs from what was issued, or the URL is used outside its window, or (for a plain path) the
+     differs from what was issued, or the URL is used outside its window, or (for a sealable path) the
      visible path differs, Unseal does not accept — for every request, every replacement, every time. *)
   Theorem tamper_rejected key n now1 now2 now' u s' :
     let s := seal_url key n now1 now2 u in
@@ -671,7 +820,7 @@ Section SealerProofs.
     s_req s' = s_req s ->
     ( s_nonce s' <> s_nonce s \/ s_nbf s' <> s_nbf s \/ s_exp s' <> s_exp s
       \/ (now' < now1 - 10000)%Z \/ (now2 + 900000 < now')%Z
-      \/ (plain_path (u_path u) /\ good_query (u_query u) /\ s_path s' <> s_path s) ) ->
+      \/ (bytes_ok (u_path u) /\ sealable_path (u_path u) /\ good_query (u_query u) /\ s_path s' <> s_path s) ) ->
     ~ accepted (unseal key now' s').
   Proof.
     intros s Hi1 Hi2 Hreq Hdiff [u' H]. apply unseal_sound in H.
@@ -680,15 +829,15 @@ Section SealerProofs.
     rewrite Hreq in Hr. inversion Hr as [Hc]. clear Hr.
     destruct (aead_binds _ _ _ _ _ _ _ Hc) as [En Ea].
     subst n'.
-    assert (Hpt : pt = request_uri (escaped_path (u_path u)) (u_query u)).
+    assert (Hpt : pt = request_uri (u_path u) (u_query u)).
     { rewrite <- Ea in Hc.
       assert (O1 : aead_open key n (aead_seal key n pt (aad_of (fmt_int (now1 - 10000)) (fmt_int (now2 + 900000))))
                      (aad_of (fmt_int (now1 - 10000)) (fmt_int (now2 + 900000))) = Some pt) by (apply aead_ideal; reflexivity).
       rewrite <- Hc in O1.
-      assert (O2 : aead_open key n (aead_seal key n (request_uri (escaped_path (u_path u)) (u_query u))
+      assert (O2 : aead_open key n (aead_seal key n (request_uri (u_path u) (u_query u))
                      (aad_of (fmt_int (now1 - 10000)) (fmt_int (now2 + 900000))))
                      (aad_of (fmt_int (now1 - 10000)) (fmt_int (now2 + 900000)))
-                   = Some (request_uri (escaped_path (u_path u)) (u_query u))) by (apply aead_ideal; reflexivity).
+                   = Some (request_uri (u_path u) (u_query u))) by (apply aead_ideal; reflexivity).
       rewrite O1 in O2. inversion O2. reflexivity. }
     unfold aad_of in Ea.
     apply app_sep_inj in Ea;
@@ -697,15 +846,14 @@ Section SealerProofs.
     destruct Ea as [E1 E2]. subst nbfs exps.
     rewrite (parse_fmt_int _ Hi1) in Pn. rewrite (parse_fmt_int _ Hi2) in Pe.
     inversion Pn; inversion Pe; subst nbf exp.
-    destruct Hdiff as [D|[D|[D|[D|[D|[Hpl [Hq D]]]]]]].
+    destruct Hdiff as [D|[D|[D|[D|[D|[Hbk [Hpl [Hq D]]]]]]]].
     - apply D. exact Hnon.
     - apply D. exact Hnbf.
     - apply D. exact Hexp.
     - lia.
     - lia.
     - apply D. rewrite Hpath. f_equal.
-      destruct Hpl as [Hpl Hrest]. rewrite (escaped_path_plain _ Hpl) in *.
-      rewrite Hpt, (parse_request_uri_plain _ _ (conj Hpl Hrest) Hq) in Hparse. inversion Hparse. reflexivity.
+      rewrite Hpt, (parse_request_uri_sealed _ _ Hbk Hpl Hq) in Hparse. inversion Hparse. reflexivity.
   Qed.
 
   (* Use outside the window of an otherwise untouched sealed URL. *)
@@ -764,35 +912,31 @@ Proof.
   apply beq_bytes_spec in Hn, Ha. subst. split; reflexivity.
 Qed.
 
-(* ---- what does NOT hold for paths that need percent-encoding (second finding) ---- *)
-(* path "a b/c" (a space): Seal puts EscapedPath() = "a%20b/c" into the sealed request URI, URL.String()
-   escapes it again ("a%2520b/c"); Unseal compares the visible path "a%20b/c" with the re-escaped
-   "a%2520b/c" and rejects the URL the sealer itself issued. *)
+(* ---- regressions (were unseal_seal_escaped_refuted / tamper_path_escaped_refuted before f75d72f) ---- *)
+(* path "a b/c" (a space): the sealed URL now unseals to the original request, and the same URL with its visible path
+   changed to "…/a%2520b/c" is rejected *)
 Definition esc_u : url := {| u_path := [97; 32; 98; 47; 99]; u_query := [120; 61; 49] |}.
 
-Theorem unseal_seal_escaped_refuted :
-  exists key n now u, length n = 12%nat /\ good_query (u_query u)
-    /\ unseal sym_open key now (seal_url sym_seal key n now now u) <> UOk u.
-Proof.
-  exists [1], zero_nonce, 1000000%Z, esc_u. split; [reflexivity|]. split; [reflexivity|].
-  vm_compute. discriminate.
-Qed.
+Example unseal_seal_escaped_regression :
+  unseal sym_open [1] 1000000%Z (seal_url sym_seal [1] zero_nonce 1000000%Z 1000000%Z esc_u) = UOk esc_u.
+Proof. vm_compute. reflexivity. Qed.
 
-(* ... and the same URL with its visible path changed to "…/a%2520b/c" IS accepted, and unseals to the
-   path "a%20b/c", which is not the path that was sealed. *)
-Theorem tamper_path_escaped_refuted :
-  exists key n now u s',
-    let s := seal_url sym_seal key n now now u in
-    s_req s' = s_req s /\ s_nonce s' = s_nonce s /\ s_nbf s' = s_nbf s /\ s_exp s' = s_exp s
-    /\ s_path s' <> s_path s
-    /\ exists u', unseal sym_open key now s' = UOk u' /\ u_path u' <> u_path u.
+Example tamper_path_escaped_regression :
+  accepted_b (unseal sym_open [1] 1000000%Z
+                (mutate [1] (seal_url sym_seal [1] zero_nonce 1000000%Z 1000000%Z esc_u)
+                        (MPath (seal_prefix ++ [97; 37; 50; 53; 50; 48; 98; 47; 99])))) = false.
+Proof. vm_compute. reflexivity. Qed.
+
+(* ---- what still does NOT hold: the two residual classes of sealable_path ---- *)
+(* "a:b/c" (relative, ':' in the first segment): URL.String writes "./a:b/c", url.Parse returns the path "./a:b/c";
+   "//org/x": url.Parse reads "org" as an authority.  In both cases Unseal rejects the URL the sealer issued. *)
+Theorem unseal_seal_residual_refuted :
+  exists u1 u2, bytes_ok (u_path u1) /\ bytes_ok (u_path u2) /\ good_query (u_query u1) /\ good_query (u_query u2)
+    /\ unseal sym_open [1] 1000000%Z (seal_url sym_seal [1] zero_nonce 1000000%Z 1000000%Z u1) <> UOk u1
+    /\ unseal sym_open [1] 1000000%Z (seal_url sym_seal [1] zero_nonce 1000000%Z 1000000%Z u2) <> UOk u2.
 Proof.
-  exists [1], zero_nonce, 1000000%Z, esc_u.
-  exists (mutate [1] (seal_url sym_seal [1] zero_nonce 1000000%Z 1000000%Z esc_u)
-                 (MPath (seal_prefix ++ [97; 37; 50; 53; 50; 48; 98; 47; 99]))).
-  cbn zeta. repeat split; try reflexivity.
-  - vm_compute. discriminate.
-  - eexists. split; [vm_compute; reflexivity | vm_compute; discriminate].
+  exists {| u_path := [97; 58; 98; 47; 99]; u_query := [] |}, {| u_path := [47; 47; 111; 114; 103; 47; 120]; u_query := [] |}.
+  repeat split; try (repeat constructor; cbv; reflexivity); try reflexivity; vm_compute; discriminate.
 Qed.
 
 (* the oracle holds on the model for ordinary requests (non-vacuity of the correspondence) *)
